@@ -717,33 +717,25 @@ End SkDer.
    ValueError, UnknownCurveError *)
 Definition documented (e : err) : Prop :=
   In e [EUnexpectedDER; EMalformedPoint; EValue; EUnknownCurve].
-(* ... plus the one that leaks: IndexError *)
-Definition documented_or_index (e : err) : Prop :=
-  In e [EUnexpectedDER; EMalformedPoint; EValue; EUnknownCurve; EIndex].
 
-Lemma doc_weaken e : documented e -> documented_or_index e.
-Proof. unfold documented, documented_or_index. cbn. intuition. Qed.
-
-Lemma doi_uder e : e = EUnexpectedDER -> documented_or_index e.
+Lemma doi_uder e : e = EUnexpectedDER -> documented e.
 Proof. intros ->. cbn. auto. Qed.
-Lemma doi_uder_or_index e : e = EUnexpectedDER \/ e = EIndex -> documented_or_index e.
-Proof. intros [-> | ->]; cbn; auto 6. Qed.
 
-Lemma doi_read_length s e : read_length s = Err e -> documented_or_index e.
+Lemma doi_read_length s e : read_length s = Err e -> documented e.
 Proof. intro H. apply doi_uder. eapply read_length_err; eassumption. Qed.
-Lemma doi_remove_sequence s e : remove_sequence s = Err e -> documented_or_index e.
+Lemma doi_remove_sequence s e : remove_sequence s = Err e -> documented e.
 Proof. intro H. apply doi_uder. eapply remove_sequence_err; eassumption. Qed.
-Lemma doi_remove_integer s e : remove_integer s = Err e -> documented_or_index e.
+Lemma doi_remove_integer s e : remove_integer s = Err e -> documented e.
 Proof. intro H. apply doi_uder. eapply remove_integer_err; eassumption. Qed.
-Lemma doi_remove_object s e : remove_object s = Err e -> documented_or_index e.
+Lemma doi_remove_object s e : remove_object s = Err e -> documented e.
 Proof. intro H. apply doi_uder. eapply remove_object_err; eassumption. Qed.
-Lemma doi_remove_octet_string s e : remove_octet_string s = Err e -> documented_or_index e.
-Proof. intro H. apply doi_uder_or_index. eapply remove_octet_string_err; eassumption. Qed.
-Lemma doi_remove_constructed s e : remove_constructed s = Err e -> documented_or_index e.
-Proof. intro H. apply doi_uder_or_index. eapply remove_constructed_err; eassumption. Qed.
-Lemma doi_remove_bitstring s m e : remove_bitstring s m = Err e -> documented_or_index e.
-Proof. intro H. apply doi_uder_or_index. eapply remove_bitstring_err; eassumption. Qed.
-Lemma doi_string_to_number s e : string_to_number s = Err e -> documented_or_index e.
+Lemma doi_remove_octet_string s e : remove_octet_string s = Err e -> documented e.
+Proof. intro H. apply doi_uder. eapply remove_octet_string_err; eassumption. Qed.
+Lemma doi_remove_constructed s e : remove_constructed s = Err e -> documented e.
+Proof. intro H. apply doi_uder. eapply remove_constructed_err; eassumption. Qed.
+Lemma doi_remove_bitstring s m e : remove_bitstring s m = Err e -> documented e.
+Proof. intro H. apply doi_uder. eapply remove_bitstring_err; eassumption. Qed.
+Lemma doi_string_to_number s e : string_to_number s = Err e -> documented e.
 Proof. destruct s; cbn; intro H; inversion H. cbn. auto. Qed.
 
 Ltac doi_const := solve [cbn; auto 8].
@@ -768,7 +760,7 @@ Global Hint Resolve doi_read_length doi_remove_sequence doi_remove_integer doi_r
 
 Ltac doi_done := first [ doi_const | solve [eauto with doi] ].
 
-Lemma doi_from_raw_encoding d rel e : from_raw_encoding d rel = Err e -> documented_or_index e.
+Lemma doi_from_raw_encoding d rel e : from_raw_encoding d rel = Err e -> documented e.
 Proof. unfold from_raw_encoding. intro H. repeat (doi_step H; try doi_done). Qed.
 Global Hint Resolve doi_from_raw_encoding : doi.
 
@@ -780,35 +772,35 @@ Section Closure.
   Variable ed_sk : bool -> bytes -> result skey.
   Variable known : list (list N * cref).
 
-  Lemma doi_point_from_bytes c d v ve e : point_from_bytes sqrt_mod c d v ve = Err e -> documented_or_index e.
+  Lemma doi_point_from_bytes c d v ve e : point_from_bytes sqrt_mod c d v ve = Err e -> documented e.
   Proof.
     unfold point_from_bytes, from_hybrid, from_compressed. intro H.
     repeat (doi_step H; try doi_done).
   Qed.
 
-  Lemma doi_vk_from_public_point c x y v e : vk_from_public_point order_ok c x y v = Err e -> documented_or_index e.
+  Lemma doi_vk_from_public_point c x y v e : vk_from_public_point order_ok c x y v = Err e -> documented e.
   Proof. unfold vk_from_public_point. intro H. repeat (doi_step H; try doi_done). Qed.
 
-  Hypothesis ed_vk_err : forall w s e, ed_vk w s = Err e -> documented_or_index e.
-  Hypothesis ed_sk_err : forall w s e, ed_sk w s = Err e -> documented_or_index e.
-  Hypothesis pubmul_err : forall c k e, pubmul c k = Err e -> documented_or_index e.
+  Hypothesis ed_vk_err : forall w s e, ed_vk w s = Err e -> documented e.
+  Hypothesis ed_sk_err : forall w s e, ed_sk w s = Err e -> documented e.
+  Hypothesis pubmul_err : forall c k e, pubmul c k = Err e -> documented e.
 
   Lemma doi_vk_from_string cr s v ve e :
-    vk_from_string sqrt_mod order_ok ed_vk cr s v ve = Err e -> documented_or_index e.
+    vk_from_string sqrt_mod order_ok ed_vk cr s v ve = Err e -> documented e.
   Proof.
     unfold vk_from_string. intro H. destruct cr; [|eapply ed_vk_err; eassumption].
     doi_step H; [|eapply doi_point_from_bytes; eassumption].
     eapply doi_vk_from_public_point; eassumption.
   Qed.
 
-  Lemma doi_find_curve l oid e : find_curve_in l oid = Err e -> documented_or_index e.
+  Lemma doi_find_curve l oid e : find_curve_in l oid = Err e -> documented e.
   Proof.
     induction l as [|[o c] t IH]; cbn [find_curve_in]; intro H.
     - apply err_inj in H. subst. doi_const.
     - destruct (oid_eqb o oid); [discriminate | auto].
   Qed.
 
-  Lemma doi_curve_from_der d ven vex e : curve_from_der sqrt_mod known d ven vex = Err e -> documented_or_index e.
+  Lemma doi_curve_from_der d ven vex e : curve_from_der sqrt_mod known d ven vex = Err e -> documented e.
   Proof.
     unfold curve_from_der, find_curve. intro H.
     destruct (if ven || vex then (ven, vex) else (true, true)) as [ven' vex'].
@@ -817,7 +809,7 @@ Section Closure.
   Qed.
 
   Lemma doi_vk_from_der s ve ven vex e :
-    vk_from_der sqrt_mod order_ok ed_vk known s ve ven vex = Err e -> documented_or_index e.
+    vk_from_der sqrt_mod order_ok ed_vk known s ve ven vex = Err e -> documented e.
   Proof.
     unfold vk_from_der. intro H.
     repeat (doi_step H; try doi_done);
@@ -826,7 +818,7 @@ Section Closure.
   Qed.
 
   Lemma doi_sk_from_secret_exponent c k e :
-    sk_from_secret_exponent order_ok pubmul c k = Err e -> documented_or_index e.
+    sk_from_secret_exponent order_ok pubmul c k = Err e -> documented e.
   Proof.
     unfold sk_from_secret_exponent. intro H.
     repeat (doi_step H; try doi_done);
@@ -834,14 +826,14 @@ Section Closure.
   Qed.
 
   Lemma doi_sk_from_string cr s e :
-    sk_from_string order_ok pubmul ed_sk cr s = Err e -> documented_or_index e.
+    sk_from_string order_ok pubmul ed_sk cr s = Err e -> documented e.
   Proof.
     unfold sk_from_string. intro H. destruct cr; [|eapply ed_sk_err; eassumption].
     repeat (doi_step H; try doi_done); try (eapply doi_sk_from_secret_exponent; eassumption).
   Qed.
 
   Lemma doi_sk_from_der s ven vex e :
-    sk_from_der sqrt_mod order_ok pubmul ed_sk known s ven vex = Err e -> documented_or_index e.
+    sk_from_der sqrt_mod order_ok pubmul ed_sk known s ven vex = Err e -> documented e.
   Proof.
     unfold sk_from_der. intro H.
     repeat (doi_step H; try doi_done);
@@ -851,27 +843,14 @@ Section Closure.
 
   (* the plug-in turns UnexpectedDER and MalformedPointError into ValueError *)
   Lemma create_from_der_fmt_err d e :
-    create_from_der_fmt sqrt_mod order_ok ed_vk known d = Err e -> In e [EValue; EUnknownCurve; EIndex].
+    create_from_der_fmt sqrt_mod order_ok ed_vk known d = Err e -> In e [EValue; EUnknownCurve].
   Proof.
     unfold create_from_der_fmt, catch.
     destruct (vk_from_der sqrt_mod order_ok ed_vk known d None true true) as [k|e0] eqn:E; [discriminate|].
-    apply doi_vk_from_der in E. unfold documented_or_index in E. cbn [In] in E.
-    destruct E as [<-|[<-|[<-|[<-|[<-|[]]]]]]; cbn; intro H; apply err_inj in H; subst; auto.
+    apply doi_vk_from_der in E. unfold documented in E. cbn [In] in E.
+    destruct E as [<-|[<-|[<-|[<-|[]]]]]; cbn; intro H; apply err_inj in H; subst; auto.
   Qed.
 
-  (* IndexError is reachable: refutes "only documented errors" *)
-  Lemma vk_from_der_index_witness :
-    vk_from_der sqrt_mod order_ok ed_vk known_curves
-      (H 25 0x3017301306072a8648ce3d020106082a8648ce3d0301070301) None true true = Err EIndex.
-  Proof. vm_compute. reflexivity. Qed.
-
-  Lemma sk_from_der_index_witness :
-    sk_from_der sqrt_mod order_ok pubmul ed_sk known_curves (H 5 0x3003020101) true true = Err EIndex.
-  Proof. vm_compute. reflexivity. Qed.
-
-  Lemma curve_from_der_index_witness :
-    curve_from_der sqrt_mod known_curves (H 9 0x300702010130003000) true true = Err EIndex.
-  Proof. vm_compute. reflexivity. Qed.
 End Closure.
 
 (* ---- the final round-trip statements for the 17 generated curves -------------------------------------- *)
@@ -938,25 +917,6 @@ Section Final.
     change (curve_of_row w_NIST256p) with NIST256p in R. rewrite R. reflexivity.
   Qed.
 End Final.
-
-(* ---- witnesses: removers without a length test accept truncated bodies / index empty input -------- *)
-
-Lemma octet_string_truncated_accepted :
-  remove_octet_string [x04; x05; x01] = Ok ([x01], []) /\ encode_octet_string [x01] <> [x04; x05; x01].
-Proof. split; [reflexivity | discriminate]. Qed.
-
-Lemma bitstring_truncated_accepted :
-  remove_bitstring [x03; x05; x00; x01] (BsInt 0) = Ok ([x01], None, []).
-Proof. reflexivity. Qed.
-
-Lemma constructed_truncated_accepted :
-  remove_constructed [xa0; x05; x01] = Ok (0, [x01], []).
-Proof. reflexivity. Qed.
-
-Lemma index_error_witnesses :
-  remove_octet_string [] = Err EIndex /\ remove_constructed [] = Err EIndex /\
-  remove_bitstring [x03; x01] (BsInt 0) = Err EIndex /\ read_number [] = Err EIndex.
-Proof. repeat split; reflexivity. Qed.
 
 (* point strings: only MalformedPointError (AssertionError) or ValueError *)
 Lemma string_to_number_err s e : string_to_number s = Err e -> e = EValue.
